@@ -201,6 +201,24 @@ where
     }
 }
 
+/// Verification hook (only compiled with `--cfg p2panda_p2panda_verif`): decode and verify a wrapped
+/// message like the subscription does, returning `(author, timestamp, logical, body)`.
+#[cfg(p2panda_p2panda_verif)]
+#[doc(hidden)]
+pub fn verif_wrapped_from_bytes<M>(bytes: &[u8]) -> Option<(VerifyingKey, u64, u64, M)>
+where
+    M: Serialize + for<'a> Deserialize<'a>,
+{
+    let wrapped = WrappedMessage::<M>::from_bytes(bytes).ok()?;
+    let (timestamp, logical) = wrapped.timestamp.to_parts();
+    Some((
+        wrapped.verifying_key,
+        timestamp.into(),
+        u64::from_str_radix(&logical.to_string(), 10).ok()?,
+        wrapped.body,
+    ))
+}
+
 /// Returns publish and subscribe halfs of an ephemeral messaging stream for a given topic.
 pub(crate) fn ephemeral_stream<M>(
     topic: Topic,
